@@ -184,7 +184,17 @@ def _is_present_test(test: ast.AST, lv: str) -> bool:
     return False
 
 
-def check_append_order(prop: str, res: Result, repo: Repo):
+def check_append_order(prop: str, res: Result, repo: Repo, parts=("indicator", "hexital", "manager")):
+    rule = "R-ORDER"
+    if "indicator" in parts:
+        _append_indicator(prop, res, repo)
+    if "hexital" in parts:
+        _append_hexital(prop, res, repo)
+    if "manager" in parts:
+        _append_manager(prop, res, repo)
+
+
+def _append_indicator(prop, res, repo):
     rule = "R-ORDER"
     ap = repo.method("hexital.core.indicator", "Indicator", "append")
     for p in stmt_paths(ap.node.body):
@@ -195,6 +205,10 @@ def check_append_order(prop: str, res: Result, repo: Repo):
             res.ok(rule, {"site": ap.where, "order": "self._candles.append -> self.calculate"}, nontrivial="Indicator.append")
         else:
             res.fail(rule, finding(prop, rule, ap, ap.node, "Indicator.append must hand the candles to its manager and then calculate", construct="append: " + " -> ".join(names)))
+
+
+def _append_hexital(prop, res, repo):
+    rule = "R-ORDER"
     hp = repo.method("hexital.core.hexital", "Hexital", "append")
     fn = hp.node
     loops = [n for n in fn.body if isinstance(n, ast.For)]
@@ -209,6 +223,10 @@ def check_append_order(prop: str, res: Result, repo: Repo):
         res.ok(rule, {"site": hp.where, "order": "every manager.append(candles) -> self.calculate()"}, nontrivial="Hexital.append")
     else:
         res.fail(rule, finding(prop, rule, hp, fn, "Hexital.append must append to every candle manager unconditionally and then calculate", construct="Hexital.append fan-out"))
+
+
+def _append_manager(prop, res, repo):
+    rule = "R-ORDER"
     mp = repo.method("hexital.core.candle_manager", "CandleManager", "append")
     last = mp.node.body[-1]
     if isinstance(last, ast.Expr) and isinstance(last.value, ast.Call) and call_target(last.value) == "self._tasks":
@@ -217,15 +235,19 @@ def check_append_order(prop: str, res: Result, repo: Repo):
         res.fail(rule, finding(prop, rule, mp, last, "CandleManager.append must finish with self._tasks()"))
 
 
-def check_tasks_order(prop: str, res: Result, repo: Repo):
+def check_tasks_order(prop: str, res: Result, repo: Repo, need=(("collapse", "convert"), ("convert", "trim"), ("collapse", "trim"))):
+    """the precedence pairs among the manager tasks that the property actually depends on"""
     rule = "R-ORDER"
     t = repo.method("hexital.core.candle_manager", "CandleManager", "_tasks")
-    names = [call_target(c) for p in stmt_paths(t.node.body) for c in path_calls(p)]
-    want = ["self.collapse_candles", "self.convert_candles", "self.trim_candles"]
-    if names == want:
-        res.ok(rule, {"site": t.where, "order": " -> ".join(want)}, nontrivial="_tasks")
-    else:
-        res.fail(rule, finding(prop, rule, t, t.node, "manager tasks must run collapse -> convert -> trim", construct="_tasks: " + " -> ".join(names)))
+    full = {"collapse": "self.collapse_candles", "convert": "self.convert_candles", "trim": "self.trim_candles"}
+    for p in stmt_paths(t.node.body):
+        names = [call_target(c) for c in path_calls(p)]
+        for a, b in need:
+            fa, fb = full[a], full[b]
+            if fa in names and fb in names and names.index(fa) < names.index(fb) and names.count(fa) == 1 and names.count(fb) == 1:
+                res.ok(rule, {"site": t.where, "order": f"{a} before {b}"}, nontrivial=f"_tasks:{a}<{b}")
+            else:
+                res.fail(rule, finding(prop, rule, t, t.node, f"manager tasks: {a} must run (once) before {b}", construct="_tasks: " + " -> ".join(names)))
     init = repo.method("hexital.core.candle_manager", "CandleManager", "__init__")
     if any(call_target(c) == "self._tasks" for c in calls_in(init.node)):
         res.ok(rule, {"site": init.where, "why": "construction runs the same tasks as append"})
